@@ -33,7 +33,7 @@ var c16Types = map[string]reflect.Type{
 	"any": reflect.TypeOf((*any)(nil)).Elem(), "slice_string": reflect.TypeOf([]string(nil)), "slice_any": reflect.TypeOf([]any(nil)),
 	"map_ss": reflect.TypeOf(map[string]string(nil)), "map_sa": reflect.TypeOf(map[string]any(nil)),
 	"struct:sub": reflect.TypeOf(c16Sub{}), "ptr:sub": reflect.TypeOf(&c16Sub{}), "struct:inl": reflect.TypeOf(c16Inl{}),
-	"inline_map": reflect.TypeOf(map[string]any(nil)),
+	"inline_map": reflect.TypeOf(map[string]any(nil)), "slice_struct:sub": reflect.TypeOf([]c16Sub(nil)),
 }
 
 // how the tag is written for a field (the key is the same either way)
